@@ -708,6 +708,14 @@ func corpus(seed int64) []rescorr.Case {
 		hdr("a") + "  container x {\n    action act;\n  }\n}\n",
 		hdr("b", "a") + "  augment \"/pa:x/pa:act/pa:input\" { leaf b1 { type string; } }\n}\n"},
 		cAug{expect: gen.C07Apply, nodes: []gen.C07Node{nd("a", "/a/x/act/input/b1", "urn:b")}, flag: "actionnoio"})
+	// 14. rpc and action nodes themselves as targets: their only children are input and output
+	add("rpc-node-target", []string{"a.yang", "b.yang"}, []string{
+		hdr("a") + "  rpc r1;\n  rpc r2 {\n    input {\n      leaf i { type string; }\n    }\n  }\n  container x {\n    action act {\n      output {\n        leaf o { type string; }\n      }\n    }\n  }\n}\n",
+		hdr("b", "a") + "  augment \"/pa:r1\" { leaf x1 { type string; } }\n" +
+			"  augment \"/pa:r2\" { container x2 { leaf q { type string; } } }\n" +
+			"  augment \"/pa:x/pa:act\" { leaf x3 { type string; } }\n" +
+			"  augment \"/pa:x\" { leaf ok { type string; } }\n}\n"},
+		cAug{expect: gen.C07NoChildren}, cAug{expect: gen.C07NoChildren}, cAug{expect: gen.C07NoChildren}, ap(nd("a", "/a/x/ok", "urn:b")))
 	return out
 }
 
